@@ -372,11 +372,18 @@ Fixpoint pos_ok (ps : list nat) (i : nat) (f : str) : bool :=
 Definition fo_ok (W : char -> bool) (f : str) (fo : foracle) : bool :=
   pos_ok (fst fo) 0 f && Bool.eqb (snd fo) (negb (wordy W f)).
 Definition nonempty (x : str) : bool := match x with [] => false | _ => true end.
+(* the text of a number: not empty, does not start like the tail of an operator *)
+Definition numtxt (x : str) : bool :=
+  match x with [] => false | c :: _ => negb (N.eqb c c_eq) && negb (N.eqb c 62) && negb (N.eqb c 126) end.
+(* characters that are not word characters: quotes, escape, delimiters, the first characters of operators *)
+Definition specials : str := [c_sq; c_bs; c_lq; c_rq; c_space; c_eq; c_bang; 60; 62; c_dot; c_lpar; c_rpar; c_comma; c_dq; c_slash; 126].
+Definition Wspec (W : char -> bool) : Prop :=
+  (forall c, ascii_word c = true -> W c = true) /\ forallb (fun c => negb (W c)) specials = true.
 Definition val_ok (W : char -> bool) (f : str) (v : lval) : bool :=
   match v with
-  | LNum txt | LCmp _ txt => nonempty txt
+  | LNum txt | LCmp _ txt => numtxt txt
   | LCidr _ _ _ _ => negb (mem c_comma f)
-  | LCmpTs _ part txt | LTs part txt => nonempty txt && negb (mem c_rq txt) && is_some (lookup part vb_parts)
+  | LCmpTs _ part txt | LTs part txt => numtxt txt && negb (mem c_rq txt) && is_some (lookup part vb_parts)
   | LFieldRef f2 fo2 _ _ => fo_ok W f2 fo2
   | LOther => false
   | _ => true
